@@ -11,12 +11,13 @@ import types
 
 from bounded.api import quiet, close
 
-BOUND = ("boundary-free hat basis on [0,1]^d, d<=3; uniform component grids: every level vector with levels 1..4 and N<=400 points "
-         "(thorough: N<=700); non-uniform grids: (a) component grids of real SpatiallyAdaptiveSingleDimensions2 runs, (lmin,lmax) in "
+BOUND = ("boundary-free hat basis on [0,1]^d, d<=3; uniform component grids: every level vector with levels 1..4 and N<200 points plus "
+         "(4,4),(3,3,3),(2,4,4) (thorough: every one with N<=700); non-uniform grids: (a) component grids of real SpatiallyAdaptiveSingleDimensions2 runs, (lmin,lmax) in "
          "{(1,2),(1,3),(2,3)}, d in {2,3}, 1..3 refinement steps chosen by a seeded adversarial ErrorCalculator, margin in {0.5,0.9}, "
-         "rebalancing on/off, (b) seeded random bisection-tree stripes (point levels <=5, <=17 interior points per dimension, N<=330) fed "
+         "rebalancing on/off, (b) seeded random bisection-tree stripes (point levels <=6, <=19 interior points per dimension, N<=400) fed "
          "to calculate_operation_dimension_wise of an operation initialised by a real zero-step run; data sets of 1..40 samples in the "
-         "closed unit cube of kinds random / on dyadic grid lines / on the domain boundary / clustered / mixed; lambda in {0,1e-3,0.1}; "
+         "closed unit cube of kinds random / on dyadic grid lines / on the domain boundary / clustered / mixed; hat evaluations additionally at "
+         "grid points, cell mid points, corners and points one floating-point neighbour below/above interior grid coordinates; lambda in {0,1e-3,0.1}; "
          "mass lumping on/off; analytic and numeric (1-D: N<=15, 2-D: N<=3) matrix entries; class labels none or +-1; right-hand side on the "
          "small (N<200), large (N>=200) and reuse (N>=200, previous iteration present) paths, natively on grids with N>=200 and, in the "
          "harness process only, with the size constant 200 of the real functions replaced by 0 / 10**9 on small grids")
@@ -891,8 +892,9 @@ def _run(ctx):
             s1, l1 = refine_stripes(rng, s0, l0, rng.choice([1, 2, 3]))
             if num_points(s1) <= 400:
                 seq.append((s1, l1))
-        # mass lumping keeps the O(N^2) python matrix loop out of two of three large cases
-        case = {"kind": "tree", "d": d, "grids": seq, "lam": rng.choice(LAMBDAS), "ml": (k % 3 != 1), "numeric": False, "reuse": reuse,
+        # k%3==0/2: refinement sequence with reuse (native reuse path), mass lumped; k%3==1: single grid, full matrix (O(N^2) python
+        # loop of the real code); k%6==3 (thorough): reuse sequence with the full, cached matrix
+        case = {"kind": "tree", "d": d, "grids": seq, "lam": rng.choice(LAMBDAS), "ml": (k % 3 != 1 and k % 6 != 3), "numeric": False, "reuse": reuse,
                 "data": random_data_desc(rng, mmax=25), "hats": False, "patch": False}
         ctx.case(case)
         case_tree(ctx, case)
